@@ -183,7 +183,15 @@ def c12(proj, rep, tier):
 def c15(proj, rep, tier):
     nf, ns = masks.ms1(proj, rep, {k: v for k, v in MS1_FUNCS.items() if '_lie' in k})
     rep.floor('MS1 elementwise operations / masked stores in the Euler-angle extraction', ns, 30)
+    n = masks.ms2(proj, rep, [k for k in MS1_FUNCS if '_lie' in k])
+    rep.floor('MS2 mask-guarded update blocks in the Euler-angle extraction', n, 3)
     n = twins.tw(proj, rep, ['numqi.group._lie'])
+    n = angles.ag2(proj, rep)
+    rep.floor('AG2 SU(2)->SO(3) polynomial obligations', n, 25)
+    n = angles.ag3(proj, rep)
+    rep.floor('AG3 Euler constructor / extractor symbolic obligations', n, 17)
+    n = angles.ag4(proj, rep)
+    rep.floor('AG4 double-cover consistency obligations', n, 10)
     n = angles.ag1(proj, rep)
     rep.floor('AG1/F3 inverse-trigonometric sites of the angle extraction', n, 6)
     rep.assume('numerical accuracy of the recovered angles, the SU(2)->SO(3) homomorphism, Wigner-d and Clebsch-Gordan relations are '
@@ -306,6 +314,8 @@ def c18(proj, rep, tier):
     rep.floor('RD1 return_dm constructors', n, 2)
     nf, ns = masks.ms1(proj, rep, {k: v for k, v in MS1_FUNCS.items() if 'state._internal' in k})
     rep.floor('MS1 sites in the closed-form Werner / isotropic EOF', ns, 10)
+    n = masks.ms2(proj, rep, [k for k in MS1_FUNCS if 'state._internal' in k])
+    rep.floor('MS2 mask-guarded update blocks in the closed forms', n, 3)
 
 
 def c20(proj, rep, tier):
